@@ -235,13 +235,13 @@ func extremalBoard(r *RNG, size int) (*tak.Position, string) {
 		board[r.Intn(size)][r.Intn(size)] = nil
 	}
 	res := func() int {
-		switch r.Intn(4) {
-		case 0:
+		switch x := r.Intn(40); {
+		case x < 10:
 			return 0
-		case 1:
+		case x < 20:
 			return 1
-		case 2:
-			return 255
+		case x < 21:
+			return 255 // a byte sum of exactly 256 wraps in the unfixed GameOver (known finding): keep it rare
 		}
 		return r.Intn(60)
 	}
@@ -395,7 +395,7 @@ func genC18(c *Ctx) {
 			c.Emit("weights " + s)
 		}
 	}
-	n := c.Scale(14000, 1400000)
+	n := c.Scale(14000, 700000)
 	for k := 0; k < n; k++ {
 		size := 3 + c.R.Intn(6)
 		var p *tak.Position
@@ -422,9 +422,12 @@ func genC18(c *Ctx) {
 			p, tag = finishedGame(c.R, size, hugePlies[c.R.Intn(len(hugePlies))]+c.R.Intn(2))
 			c.Count("src." + tag + ".hugeply")
 			inDomain = false
-		case x < 86:
+		case x < 82:
 			p = gapBoard(c.R, size, c)
 			c.Count("src.gap")
+		case x < 87:
+			p = smallBoard(c.R, 3+c.R.Intn(3))
+			c.Count("src.smallboard")
 		case x < 92:
 			p = roadBoard(c.R, size)
 			c.Count("src.roadboard")
@@ -442,6 +445,10 @@ func genC18(c *Ctx) {
 		}
 		if inDomain {
 			c.Count("check.default=" + c.Emit("evalcheck default "+tok))
+			if c.R.Chance(1, 3) {
+				// the hypotheses of the rule-book form of the theorems (C02's WFBoard and ReservesOK)
+				c.Count("rulebook-hypotheses=" + c.Emit("wfb "+dumpPos(p)))
+			}
 		}
 		switch c.R.Intn(6) {
 		case 0:
@@ -770,8 +777,68 @@ func junctionBoard(r *RNG, size int, c *Ctx) *tak.Position {
 	return fromBoard(bigCfg(r, size), board, ply, ws, wc, bs, bc)
 }
 
+// smallBoard: a dense random 3x3 / 4x4 / 5x5 board of single pieces (occasionally two-high stacks):
+// every local geometry of gaps, junctions, walls and capstones turns up quickly at these sizes.
+func smallBoard(r *RNG, size int) *tak.Position {
+	board := emptyBoard(size)
+	fill := 30 + r.Intn(60)
+	capPct := r.Intn(12)
+	wallPct := r.Intn(30)
+	for y := 0; y < size; y++ {
+		for x := 0; x < size; x++ {
+			if r.Intn(100) >= fill {
+				continue
+			}
+			col := bothColors[r.Intn(2)]
+			h := 1
+			if r.Chance(1, 8) {
+				h = 2 + r.Intn(3)
+			}
+			board[y][x] = stackOf(r, tak.MakePiece(col, randKind(r, capPct, wallPct)), h, 3)
+		}
+	}
+	ply := 2 + r.Intn(40)
+	res := func() int { return []int{0, 1, 1, 2, 7}[r.Intn(5)] }
+	ws, wc, bs, bc := res(), res(), res(), res()
+	if ws+wc == 0 {
+		ws = 1
+	}
+	if bs+bc == 0 {
+		bc = 1
+	}
+	return fromBoard(bigCfg(r, size), board, ply, ws, wc, bs, bc)
+}
+
+// enum3: the k-th 3x3 board over {empty, white flat, black flat, white wall, black wall} (5^9 boards).
+func enum3(k int, ply int) *tak.Position {
+	board := emptyBoard(3)
+	pcs := []tak.Piece{0, tak.MakePiece(tak.White, tak.Flat), tak.MakePiece(tak.Black, tak.Flat),
+		tak.MakePiece(tak.White, tak.Standing), tak.MakePiece(tak.Black, tak.Standing)}
+	for i := 0; i < 9; i++ {
+		d := k % 5
+		k /= 5
+		if d != 0 {
+			board[i/3][i%3] = tak.Square{pcs[d]}
+		}
+	}
+	return fromBoard(tak.Config{Size: 3, Pieces: 250, Capstones: 120}, board, ply, 3, 0, 3, 0)
+}
+
 func genC19(c *Ctx) {
-	n := c.Scale(12000, 2400000)
+	if c.Thorough() {
+		// every 3x3 board of flats and walls, both sides to move (5^9 = 1953125 boards, split over the shards)
+		total := 1953125
+		for k := c.Shard; k < total; k += c.NShard {
+			p := enum3(k, 2+k%2)
+			if over, _ := p.GameOver(); over {
+				continue
+			}
+			tok := encPos(p)
+			c.Emit("threats " + tok)
+			c.Count("enum3.threatreal=" + strings.Fields(c.Emit("threatreal "+tok) + " x")[0])
+		}
+	}
+	n := c.Scale(12000, 600000)
 	for k := 0; k < n; k++ {
 		size := 3 + c.R.Intn(6)
 		if c.R.Chance(1, 3) {
@@ -782,18 +849,21 @@ func genC19(c *Ctx) {
 			src := ""
 			x := c.R.Intn(100)
 			switch {
-			case x < 45:
+			case x < 40:
 				p = gapBoard(c.R, size, c)
 				src = "src.gap"
-			case x < 60:
+			case x < 53:
 				p = junctionBoard(c.R, size, c)
 				src = "src.junction"
-			case x < 72:
+			case x < 63:
 				p = roadBoard(c.R, size)
 				src = "src.roadboard"
-			case x < 80:
+			case x < 70:
 				p, src = extremalBoard(c.R, size)
 				src = "src." + src
+			case x < 84:
+				p = smallBoard(c.R, 3+c.R.Intn(3))
+				src = "src.smallboard"
 			default:
 				p = randomPosition(c.R)
 				src = "src.random"
